@@ -34,6 +34,12 @@ def main():
             res["baseline_rc"] = rc
             res["baseline"] = out.strip().split("\n")[0]
         env2 = dict(os.environ); env2["VERIF_REPO"] = wt
+        # private copy of the Coq tree (compiled files included, mtimes kept): Gen files regenerated from the patched tree
+        # never meet the ones of /repo, so runs against different trees are independent
+        coqcopy = wt + "-coq"
+        shutil.rmtree(coqcopy, ignore_errors=True)
+        sh(f"cp -a /verif/coq {coqcopy}")
+        env2["VERIF_COQ"] = coqcopy
         for k in ("PYTHONPATH", "PYTHONHASHSEED"):
             env2.pop(k, None)
         rc, out = sh(f"cd /verif && /venv/bin/python run_check.py {prop} {tier}", env=env2, timeout=7200)
@@ -46,6 +52,7 @@ def main():
     finally:
         sh(f"git -C /repo worktree remove --force {wt}")
         shutil.rmtree(wt, ignore_errors=True)
+        shutil.rmtree(wt + "-coq", ignore_errors=True)
     print(json.dumps(res, indent=1))
     return 0 if res.get("confirmed") and res.get("caught") else 1
 
